@@ -368,6 +368,19 @@ def r2_components(ctx, g, handlers):
                   f'on every path the grammar allows, the barline text is "=" / "==" followed by pieces of the cell as written ({n_tok} paths)',
                   f'the barline token can receive the text {sorted(bad_lits)[:3]} that is not a piece of the cell: a barline type is '
                   f'silently replaced by another spelling on export')
+    # the DURATION sub-tokens of a note are what the `duration` rule read, in grammar order: a signifier handler that files a mark
+    # as DURATION (a grace `q` written after the pitch) makes the exporter write it next to the figure, where the grammar reads two
+    # adjacent marks as ONE other token (`q` `q` -> `qq`)
+    lst_mod_ = ctx.prog.module(N.LISTENER)
+    for f_ in ctx.prog.all_functions():
+        if f_.module is not lst_mod_ or isinstance(f_.node, ast.Lambda) or f_.name == 'exitDuration':
+            continue
+        for n_ in walk_local(f_.node):
+            if isinstance(n_, ast.Call) and F.is_name(n_.func, 'Subtoken') and any(src(a_).endswith('TokenCategory.DURATION') for a_ in
+                                                                                  list(n_.args) + [k_.value for k_ in n_.keywords]):
+                ctx.violation('R2', f'{f_.module.relpath}:{n_.lineno}', f_.qualname, 'duration-subtoken-built-outside-duration-rule',
+                              f'`{src(n_)[:70]}` files a piece of the cell as a DURATION sub-token outside exitDuration: it is exported inside the '
+                              f'duration group, in another place than it was written, and the text that results is read differently')
     # a hidden token is written as a placeholder: the listener hides barlines (the `-` of `=1-`) and nothing else - a note or rest
     # that is marked hidden is exported as `.` and its line may disappear
     for hf in {id(h_): h_ for hs_ in handlers.values() for h_ in hs_.values()}.values():
